@@ -362,8 +362,14 @@ fn anonymous_lifetime_cases(tier: &str) -> Vec<XCase> {
              format!("fn id(x: &u8) -> u8 {{ *x }} let a: G<fn(&u8) -> u8> = G(id, 1); format!(\"{{}};{{}}\", &a {sym} 5u8, a {sym} &7u8)"), "6;8".to_string()));
         bases.push(("Op<G<&u8>> for G<&'_ u8> (anonymous lifetimes in the self type and in Rhs)", format!("{tr}"), format!("impl ::core::ops::{tr}<G<&u8>> for G<&'_ u8> {{ type Output = u32; fn {f}(self, r: G<&u8>) -> u32 {{ self.1 + r.1 }} }}"),
              format!("let z = 0u8; let a = G(&z, 1); let b = G(&z, 5); format!(\"{{}};{{}}\", &a {sym} &b, a {sym} &b)"), "6;6".to_string()));
+        // an impl for a reference WITHOUT lifetime whose header also has an anonymous lifetime and whose where-clause has
+        // a `Self` bound (two lifetime-naming mechanisms at once); `Self` inside the arguments of a where-bound
+        bases.push(("Op<u32> for &W2<'_, T> where Self: Weight", format!("{tr}"), format!("impl<T: Clone> ::core::ops::{tr}<u32> for &W2<'_, T> where Self: Weight {{ type Output = u32; fn {f}(self, r: u32) -> u32 {{ *self.0 as u32 + r }} }}"),
+             format!("let z = 1u8; let a = W2(&z, 0u8); format!(\"{{}};{{}};{{}}\", &a {sym} &5u32, W2(&z, 0u8) {sym} 6u32, W2(&z, 0u8) {sym} &7u32)"), "6;7;8".to_string()));
+        bases.push(("Op for &G<T> where T: Scale<Self> + Clone", format!("{tr}"), format!("impl<T> ::core::ops::{tr} for &G<T> where T: Scale<Self> + Clone {{ type Output = u32; fn {f}(self, r: &G<T>) -> u32 {{ self.1 + r.1 }} }}"),
+             format!("let a = G(0u8, 1); let b = G(0u8, 5); format!(\"{{}};{{}};{{}}\", &a {sym} b.clone(), a.clone() {sym} &b, a {sym} b)"), "6;6;6".to_string()));
         for (what, req, imp, run, exp) in bases {
-            let code = format!("use derive_ex::derive_ex;\n#[derive(Clone, Debug)] pub struct W<'a>(pub &'a u8, pub u32);\n#[derive(Clone, Debug)] pub struct G<T>(pub T, pub u32);\n#[derive_ex({req})]\n{imp}\npub fn run() -> String {{ {run} }}\n");
+            let code = format!("use derive_ex::derive_ex;\n#[derive(Clone, Debug)] pub struct W<'a>(pub &'a u8, pub u32);\n#[derive(Clone, Debug)] pub struct G<T>(pub T, pub u32);\n#[derive(Clone, Debug)] pub struct W2<'a, T>(pub &'a u8, pub T);\npub trait Weight {{}}\nimpl<'x, 'y, T> Weight for &'x W2<'y, T> {{}}\npub trait Scale<S> {{}}\nimpl<'x> Scale<&'x G<u8>> for u8 {{}}\n#[derive_ex({req})]\n{imp}\npub fn run() -> String {{ {run} }}\n");
             let mut atoms = BTreeSet::new();
             atoms.insert(format!("op={tr}"));
             atoms.insert("header=anonymous-lifetime".to_string());
